@@ -540,6 +540,10 @@ class SymComplex:
             return _elementwise(lambda v: self._b(v, f, reflected), o)
         if o is SymNaN:
             return SymNaN
+        if isinstance(o, (float, np.floating)) and o != o:
+            return SymNaN
+        if isinstance(o, (complex, np.complexfloating)) and (o.real != o.real or o.imag != o.imag):
+            return SymNaN
         oc = SymComplex.of(o)
         if oc is None:
             return NotImplemented
